@@ -188,6 +188,26 @@ def oracle(chk: core.Check, thorough: bool):
         second = np.asarray(det.parse_emc_digi_id(arg)["gid"])
         expect(f"parse_emc_digi_id on a {kind}, first call", {"digi_id": ids}, first, G)
         expect(f"parse_emc_digi_id on a {kind} refilled in place, second call", {"digi_id": np.asarray(ids)[perm]}, second, G[perm], "same function, same object, new content: the gid of the identifiers now in the buffer")
+    # long hit lists (every element many times, shuffled; well above any bulk / chunking / threading threshold): still the documented numbering,
+    # both directions and through the digi route - a second implementation chosen by size must agree with the first
+    reps = 44 if thorough else 24
+    sel = rng.permutation(np.tile(np.arange(NC), reps))
+    for dt in ("uint8", "int64"):
+        if not expect(f"get_emc_gid[{dt}] on {len(sel)} hits", {"part": P[sel], "theta": T[sel], "phi": F[sel]}, det.get_emc_gid(P[sel].astype(dt), T[sel].astype(dt), F[sel].astype(dt)), G[sel], o):
+            return
+    if not expect(f"emc_gid_to_part/theta/phi on {len(sel)} hits", {"gid": G[sel]}, i64(det.emc_gid_to_part(G[sel])) * 10000 + i64(det.emc_gid_to_theta(G[sel])) * 128 + i64(det.emc_gid_to_phi(G[sel])), (P * 10000 + T * 128 + F)[sel], o):
+        return
+    if not expect(f"parse_emc_digi_id.gid on {len(sel)} hits", {"digi_id": np.asarray(ids)[sel]}, det.parse_emc_digi_id(np.asarray(ids)[sel])["gid"], G[sel], "gid from parsing the identifier == gid of the element"):
+        return
+    selw = rng.permutation(np.tile(np.arange(NW), reps))
+    for dt in ("uint16", "int64"):
+        if not expect(f"get_mdc_gid[{dt}] on {len(selw)} hits", {"layer": layer[selw], "wire": wire[selw]}, det.get_mdc_gid(layer[selw].astype(dt), wire[selw].astype(dt)), exp_gid[selw]):
+            return
+    if not expect(f"mdc_gid_to_layer/wire on {len(selw)} hits", {"gid": exp_gid[selw]}, i64(det.mdc_gid_to_layer(exp_gid[selw])) * 1000 + i64(det.mdc_gid_to_wire(exp_gid[selw])), (layer * 1000 + wire)[selw]):
+        return
+    mids = np.asarray(did.get_mdc_digi_id(wire.astype(np.uint32), layer.astype(np.uint32), z["is_stereo"].astype(np.uint32)))
+    if not expect(f"parse_mdc_digi_id.gid on {len(selw)} hits", {"digi_id": mids[selw]}, det.parse_mdc_digi_id(mids[selw])["gid"], exp_gid[selw], "gid from parsing the identifier == gid of the element"):
+        return
     # top-level re-exports are the same callables
     for n in ["get_mdc_gid", "get_emc_gid", "parse_mdc_gid", "parse_emc_gid", "parse_mdc_digi_id", "parse_emc_digi_id", "mdc_gid_to_layer", "mdc_gid_to_wire"]:
         if getattr(pybes3, n) is not getattr(det, n):
